@@ -25,6 +25,15 @@ type c12Row struct {
 	N     int64
 }
 
+// c12Auto: a table with a composite primary key registered as AutoIncrement: an INSERT leaves the primary-key
+// columns out, so on a handle limited on `shard` no insert into it can comply
+type c12Auto struct {
+	Shard int64 `sql:",primary"`
+	Id    int64 `sql:",primary"`
+	Name  string
+	N     int64
+}
+
 var c12Cols = []string{"id", "shard", "org", "name", "n"}
 var c12ColID = map[string]int{"id": 0, "shard": 1, "org": 2, "name": 3, "n": 4}
 
@@ -142,6 +151,7 @@ type c12Call struct {
 	Chunk  int       `json:"chunk,omitempty"`
 	Tx     bool      `json:"tx"`
 	Where  int       `json:"where,omitempty"` // query / queryRow with SelectOptions.Where = c12Wheres[Where-1]
+	Auto   bool      `json:"auto,omitempty"`  // insertRow / insertRows into the AutoIncrement table
 }
 
 // custom WHERE clauses handed to Query / QueryRow through SelectOptions: the limits must confine the whole
@@ -195,7 +205,22 @@ func c12RowKVs(r []int64) []c12KV {
 	return out
 }
 
+// the column values of an insert into the AutoIncrement table: the primary-key columns are not part of the statement
+func c12AutoKVs(r []int64) []c12KV {
+	return []c12KV{{"name", c12Val{Ty: 3, V: 0}}, {"n", c12Val{Ty: 0, V: r[3]}}}
+}
+
 func (cl c12Call) enc() interface{} {
+	if cl.Auto {
+		if cl.Op == "insertRow" {
+			return map[string]interface{}{"op": "insertRow", "row": c12EncKVs(c12AutoKVs(cl.Rows[0])), "upsert": false}
+		}
+		rows := []interface{}{}
+		for _, r := range cl.Rows {
+			rows = append(rows, c12EncKVs(c12AutoKVs(r)))
+		}
+		return map[string]interface{}{"op": "insertRows", "rows": rows, "chunk": cl.Chunk, "upsert": false}
+	}
 	switch cl.Op {
 	case "query", "queryRow", "count":
 		return map[string]interface{}{"op": "query", "filter": c12EncKVs(cl.Filter)}
@@ -461,8 +486,10 @@ type c12Env struct {
 func c12NewEnv() *c12Env {
 	fdb, conn := newFakeDB()
 	fdb.createTable("rows", c12Cols, []string{"id"})
+	fdb.createTable("autos", []string{"shard", "id", "name", "n"}, []string{"shard", "id"})
 	schema := sqlgen.NewSchema()
 	schema.MustRegisterType("rows", sqlgen.UniqueId, c12Row{})
+	schema.MustRegisterType("autos", sqlgen.AutoIncrement, c12Auto{})
 	// some rows of several shards
 	for i := int64(1); i <= 12; i++ {
 		org := driverNull(i%3, i%4 == 0)
@@ -486,6 +513,18 @@ func (e *c12Env) call(db *sqlgen.DB, ctx context.Context, cl c12Call) error {
 }
 
 func (e *c12Env) callIn(db *sqlgen.DB, ctx context.Context, cl c12Call) error {
+	if cl.Auto {
+		mk := func(r []int64) *c12Auto { return &c12Auto{Shard: r[1], Id: r[0], Name: "x", N: r[3]} }
+		if cl.Op == "insertRow" {
+			_, err := db.InsertRow(ctx, mk(cl.Rows[0]))
+			return err
+		}
+		var rows []*c12Auto
+		for _, r := range cl.Rows {
+			rows = append(rows, mk(r))
+		}
+		return db.InsertRows(ctx, rows, cl.Chunk)
+	}
 	switch cl.Op {
 	case "query":
 		var out []*c12Row
@@ -596,6 +635,89 @@ func c12One(c *Ctx, m *Model, cs c12Case) {
 	}
 	rep.Count(cs.Call.Op + ":" + verdict)
 	rep.Eval(Canon(cs), len(enforced) > 0, map[string]interface{}{"op": cs.Call.Op, "verdict": verdict, "enforced": len(enforced)})
+}
+
+// c12Reuse: one *SelectOptions handed to several Query / QueryRow calls on differently limited handles, one after
+// the other (sqlgen writes the filter into the options it is given): every statement must be confined to the
+// limits of the handle it was made on, with that handle's values.
+type c12Step struct {
+	Handle c12Handle `json:"handle"`
+	Call   c12Call   `json:"call"`
+}
+
+func c12Reuse(c *Ctx, m *Model, r *Rand) {
+	var steps []c12Step
+	for k := 2 + r.Intn(3); k > 0; k-- {
+		h := c12GenHandle(r)
+		if r.Chance(0.2) {
+			h = c12Handle{}
+		}
+		steps = append(steps, c12Step{h, c12Call{Op: []string{"query", "queryRow"}[r.Intn(2)], Filter: c12GenFilter(r, h)}})
+	}
+	c12ReuseRun(c, m, r.Intn(4), steps)
+}
+
+func c12ReuseRun(c *Ctx, m *Model, kind int, steps []c12Step) {
+	rep := c.Rep
+	env := c12NewEnv()
+	opts := &sqlgen.SelectOptions{}
+	switch kind {
+	case 0:
+		opts.OrderBy = "id"
+	case 1:
+		opts.Limit = 5
+	case 2:
+		opts.Where, opts.Values = "n = ?", []interface{}{int64(10)}
+	case 3:
+		opts.ForUpdate = true
+	}
+	cs := map[string]interface{}{"reused_options": kind, "steps": steps}
+	for i, st := range steps {
+		db, err := st.Handle.open(env.base)
+		if err != nil {
+			rep.Fail("harness_error", nil, cs, map[string]interface{}{"error": err.Error()})
+			return
+		}
+		env.fdb.resetLog()
+		var callErr error
+		if p := safely(func() {
+			if st.Call.Op == "query" {
+				var out []*c12Row
+				callErr = db.Query(context.Background(), &out, c12Filter(st.Call.Filter), opts)
+			} else {
+				var out *c12Row
+				callErr = db.QueryRow(context.Background(), &out, c12Filter(st.Call.Filter), opts)
+			}
+		}); p != nil {
+			rep.Fail("impl_ne_spec", nil, cs, map[string]interface{}{"what": "panic in a sqlgen.DB operation", "panic": firstN(fmt.Sprint(p), 300)})
+			return
+		}
+		resp, err := m.Call(map[string]interface{}{"op": "exec", "handle": st.Handle.enc(), "call": st.Call.enc()})
+		if err != nil {
+			rep.Fail("harness_error", nil, cs, map[string]interface{}{"error": err.Error()})
+			return
+		}
+		enforced := c12ModelKVs(resp["enforced"])
+		for _, s := range env.fdb.statements() {
+			p, err := c12ParseStmt(s)
+			if err != nil {
+				rep.Fail("harness_error", nil, cs, map[string]interface{}{"error": err.Error(), "statement": s})
+				return
+			}
+			if !c12Carries(p, enforced) {
+				rep.Fail("impl_ne_spec", nil, cs, map[string]interface{}{"what": "with SelectOptions used before on another handle, a statement reached the database that is not confined to the limits of the handle it was made on", "step": i, "statement": s, "enforced": enforced})
+				return
+			}
+		}
+		mErr := resp["error"].(bool)
+		limitErr := callErr != nil && strings.Contains(callErr.Error(), "check failed for db with")
+		if mErr != limitErr {
+			rep.Fail("impl_ne_spec", nil, cs, map[string]interface{}{"what": "with reused SelectOptions the limit check's verdict differs from the verdict for the same call with fresh options", "step": i, "model_rejects": mErr, "error": fmt.Sprint(callErr)})
+			return
+		}
+	}
+	rep.Count("reused_select_options")
+	rep.Eval(Canon(cs), true, map[string]interface{}{"steps": len(steps)})
 }
 
 // c12Batch: concurrent queries of several handles on one table under batching.
@@ -802,7 +924,7 @@ func runC12(c *Ctx) error {
 		return err
 	}
 	defer m.Close()
-	c.Rep.Rule = "random handles (no limit, shard limit on one or two columns incl. a NULL limit, dynamic limit that rejects or lets through or returns no filter, both) x every operation of sqlgen.DB (Query, QueryRow, Count, InsertRow, UpsertRow, InsertRows, UpsertRows with chunk sizes, UpdateRow, DeleteRow; inside and outside a transaction) with complying arguments and with non-complying ones (limit column missing, other value, same number under another Go type, pointer, nil) on a fake SQL driver; every statement the driver receives is parsed and checked against the limits directly (the property) and against the statements the Lean model issues; verdicts compared; batched concurrent queries of several differently limited handles: every OR-branch must belong to a complying query and carry that handle's limits"
+	c.Rep.Rule = "random handles (no limit, shard limit on one or two columns incl. a NULL limit, dynamic limit that rejects or lets through or returns no filter, both) x every operation of sqlgen.DB (Query, QueryRow, Count, InsertRow, UpsertRow, InsertRows, UpsertRows with chunk sizes, UpdateRow, DeleteRow; inside and outside a transaction; inserts into an AutoIncrement table whose statements leave the primary-key columns out; one SelectOptions value reused across calls on differently limited handles) with complying arguments and with non-complying ones (limit column missing, other value, same number under another Go type, pointer, nil) on a fake SQL driver; every statement the driver receives is parsed and checked against the limits directly (the property) and against the statements the Lean model issues; verdicts compared; batched concurrent queries of several differently limited handles: every OR-branch must belong to a complying query and carry that handle's limits"
 	c.Rep.Assumptions = append(c.Rep.Assumptions,
 		"DB.Conn and DB.QueryExecer hand out the raw connection on purpose: outside the operations the property lists",
 		"statements are those of sqlgen's own generators (the fake driver parses exactly that dialect)")
@@ -810,12 +932,23 @@ func runC12(c *Ctx) error {
 		var f struct {
 			Case c12Case `json:"case"`
 		}
+		var g struct {
+			Case struct {
+				Kind  int       `json:"reused_options"`
+				Steps []c12Step `json:"steps"`
+			} `json:"case"`
+		}
 		b, err := os.ReadFile(c.Replay)
 		if err != nil {
 			return err
 		}
 		if err := json.Unmarshal(b, &f); err != nil {
 			return err
+		}
+		if json.Unmarshal(b, &g) == nil && len(g.Case.Steps) > 0 {
+			c12ReuseRun(c, m, g.Case.Kind, g.Case.Steps)
+			fmt.Printf("replay: %d failures\n", len(c.Rep.Failures))
+			return nil
 		}
 		c12One(c, m, f.Case)
 		fmt.Printf("replay: %d failures\n", len(c.Rep.Failures))
@@ -847,8 +980,14 @@ func runC12(c *Ctx) error {
 		case 8:
 			cl = c12Call{Op: "deleteRow", Rows: [][]int64{c12GenRow(r, h, r.Chance(0.6))}}
 		}
+		if (cl.Op == "insertRow" || cl.Op == "insertRows") && r.Chance(0.3) {
+			cl.Auto = true // the struct carries the shard value, the statement does not
+		}
 		cl.Tx = r.Chance(0.25) && cl.Op != "insertRows" && cl.Op != "upsertRows"
 		c12One(c, m, c12Case{Handle: h, Call: cl})
+		if i%10 == 5 {
+			c12Reuse(c, m, r)
+		}
 		if i%10 == 0 {
 			k := 2 + r.Intn(3)
 			var hs []c12Handle
